@@ -68,15 +68,19 @@ func (t *_ticker) run() {
 
 	var nextch chan int
 
+	// true once the current tick has been received from timer.C
+	expired := false
+
 	for {
 
 		select {
 
 		case <-t.resetch:
-			if !timer.Stop() {
+			if !timer.Stop() && !expired {
 				<-timer.C
 			}
 			timer.Reset(t.nextPeriod())
+			expired = false
 			nextch = nil
 
 		case <-t.stopch:
@@ -85,12 +89,14 @@ func (t *_ticker) run() {
 
 		case <-timer.C:
 			timer.Stop()
+			expired = true
 			nextch = t.nextch
 
 		case nextch <- count:
 			count++
 			nextch = nil
 			timer.Reset(t.nextPeriod())
+			expired = false
 
 		}
 	}
